@@ -631,7 +631,17 @@ def _shard(args):
     return sub
 
 
+# thorough tier: more code points (letters and symbols only: none of them is white space, a digit or a control
+# character, for which the documented spellings differ)
+THOROUGH_EXTRA = (list(range(0xC0, 0x100)) + list(range(0x391, 0x3AA)) + list(range(0x410, 0x450))
+                  + list(range(0x4E00, 0x4E20)) + [0x2026, 0x20AC, 0x2122, 0xFFFD])  # BMP only: \\uHHHH is the documented escape
+
+
 def run(ctx):
+    if not ctx.quick:
+        for code in THOROUGH_EXTRA:
+            if code not in POOL and chr(code).isprintable():
+                POOL.append(code)
     shards = ctx.workers
     ctx.par(_shard, [(i, shards) for i in range(shards)])
 
